@@ -272,6 +272,7 @@ def run(ctx):
                    kc.mod.rel, kc.methods[m_].lineno)
 
     shared.control_keys_cover_rule(ctx, 'C12.o', floor=4)
+    _terminal_queries_use_mapped_circuit(ctx, repo)
     ctx.decided.append('C12.o _control_keys_ of every wrapping operation covers the children whose keys the class rewrites')
 
     # ------------------------------------------------------------------ C12.g
@@ -686,3 +687,51 @@ def _key_protocol_siblings(ctx, repo):
                'than its unrolled circuit records', ci.mod.rel, ci.node.lineno)
     if n == 0:
         raise AnalysisError('C12.n: no class with _with_measurement_key_mapping_ found')
+
+
+# ---------------------------------------------------------------------------------------------------------------------
+def _terminal_queries_use_mapped_circuit(ctx, repo):
+    """C12.p - questions a circuit answers about itself (are all / any matches terminal) descend into the circuit a sub-circuit operation stands for."""
+    ctx.decided.append('C12.p the terminal-measurement queries of AbstractCircuit (and the helper they share) read the body of a CircuitOperation only through mapped_circuit(): the qubit map '
+                       'and the repetitions decide whether something follows a measurement')
+    ctx.rule('C12.p', 'wrapped == unrolled for terminal queries: in AbstractCircuit.are_all_matches_terminal / are_any_matches_terminal and the module-level helpers they call, the raw body '
+             '(`.circuit` / getattr(x, "circuit")) of an operation is read only where the operation is known not to be a CircuitOperation (negative isinstance guard); for a '
+             'CircuitOperation the sub-circuit examined is the result of mapped_circuit()', floor=2, style='RG')
+    from ..flow import dominating_atoms
+    m = repo.module('cirq-core/cirq/circuits/circuit.py')
+    ac = repo.cls('cirq.circuits.circuit.AbstractCircuit')
+    par = m.parents()
+    fns = []
+    for mn in ('are_all_matches_terminal', 'are_any_matches_terminal'):
+        fn = ac.methods.get(mn)
+        if fn is None:
+            raise AnalysisError(f'AbstractCircuit.{mn} vanished')
+        fns.append(fn)
+    # module-level helpers called by them
+    for fn in list(fns):
+        for c in ast.walk(fn):
+            if isinstance(c, ast.Call) and isinstance(c.func, ast.Name) and isinstance(m.defs.get(c.func.id), ast.FunctionDef) and m.defs[c.func.id] not in fns:
+                fns.append(m.defs[c.func.id])
+    for fn in fns:
+        raw = []
+        for n in ast.walk(fn):
+            if isinstance(n, ast.Attribute) and n.attr == 'circuit' and isinstance(n.ctx, ast.Load) and not (isinstance(n.value, ast.Name) and n.value.id == 'self'):
+                raw.append(n)
+            if isinstance(n, ast.Call) and call_name(n) == 'getattr' and len(n.args) >= 2 and isinstance(n.args[1], ast.Constant) and n.args[1].value == 'circuit':
+                raw.append(n)
+        mapped = [c for c in ast.walk(fn) if isinstance(c, ast.Call) and isinstance(c.func, ast.Attribute) and c.func.attr == 'mapped_circuit']
+        descends = bool(raw or mapped or any(isinstance(c, ast.Call) and isinstance(c.func, ast.Name) and m.defs.get(c.func.id) in fns for c in ast.walk(fn)))
+        if not descends:
+            ctx.ob('C12.p', f'cirq.circuits.circuit.{fn.name}:descends', False, 'the query no longer looks inside sub-circuit operations at all', m.rel, fn.lineno)
+            continue
+        bad = []
+        for n in raw:
+            guarded = False
+            for a, pol in dominating_atoms(par, n, fn):
+                if isinstance(a, ast.Call) and call_name(a) == 'isinstance' and 'CircuitOperation' in ast.unparse(a.args[1]) and not pol:
+                    guarded = True
+            if not guarded:
+                bad.append(n)
+        ctx.ob('C12.p', f'cirq.circuits.circuit.{fn.name}:body-access', not bad, '' if not bad else
+               f'`{ast.unparse(bad[0])[:60]}` reads the body of a possible CircuitOperation as written: its qubit map and repetitions are ignored, so a measurement that is followed by '
+               'another pass of the loop, or by an operation on the mapped qubit, counts as terminal', m.rel, bad[0].lineno if bad else fn.lineno)
